@@ -7,7 +7,7 @@ from concurrent.futures import ThreadPoolExecutor
 
 REPO = os.environ.get("VERIF_REPO", "/repo")
 VERIF = os.path.dirname(os.path.dirname(os.path.abspath(__file__)))
-BUILD = os.path.join(VERIF, "build")
+BUILD = os.environ.get("VERIF_BUILD") or os.path.join(VERIF, "build")
 GUARD = "NAKEN_ASM_VERIF"
 
 LIB_DIRS = ["asm", "common", "core", "disasm", "fileio", "simulate", "table"]
